@@ -251,8 +251,8 @@ impl<'a> PrettyPrinter<'a> {
                 // target or condition
                 FlowItem::spaced(self.convert_expr(ctx, expr))
             } else if let Some(args) = child.cast() {
-                // args
-                FlowItem::tight_spaced(self.convert_parenthesized_args(ctx, args))
+                // args, which may end with content blocks
+                FlowItem::tight_spaced(self.convert_args(ctx, args))
             } else {
                 FlowItem::none()
             }
